@@ -116,7 +116,7 @@ def make_plan(prop, seed, tier, i):
 # --------------------------------------------------------------------------- worker
 def work_chunk(args):
     pid, seed, tier, start, end, recheck_every = args
-    faulthandler.dump_traceback_later(int(os.environ.get('VERIF_CHUNK_WALL', '600')), exit=True)
+    faulthandler.dump_traceback_later(int(os.environ.get('VERIF_CHUNK_WALL', '1500')), exit=True)
     logging.disable(logging.CRITICAL)
     prop = load_prop(pid)
     res = {
@@ -269,7 +269,8 @@ def check(pid, tier, seed, workers, replay=None, runs_override=None):
     # (3) seeded search
     total = runs_override or prop.RUNS[tier]
     nchunks = max(workers * 4, 1)
-    size = max(1, (total + nchunks - 1) // nchunks)
+    # small chunks: a chunk's wall-clock safety net must never be reached by honest work on a loaded machine
+    size = min(max(1, (total + nchunks - 1) // nchunks), int(os.environ.get("VERIF_CHUNK_RUNS", "3000")))
     recheck = 100
     jobs = [(pid, seed, tier, a, min(total, a + size), recheck) for a in range(0, total, size)]
     agg = {"evaluations": 0, "nontrivial": 0, "distinct": set(), "probes": Counter(),
